@@ -133,6 +133,20 @@ func checkC01(c *Ctx, w *World) {
 		cs := newCondSpace(bind, recOf(boolAtom("bound", isOK)), "bound")
 		imp, wit := cs.Implies(cs.Reach(mu), cs.Not(cs.Atom("bound")))
 		okArgs := key == ssa.Value(bind.Params[1]) && mu.Value == ssa.Value(bind.Params[2])
+		// test and insert form one critical section: gb.mu is write-held from the lookup to the insert, so two BIND
+		// completions carrying the same key cannot both see it unbound
+		atomicOK := false
+		for i, val := range cs.VarVal {
+			if val == nil || cs.Vars[i] != "@bound" {
+				continue
+			}
+			if e, isE := stripConv(val).(*ssa.Extract); isE {
+				if lk, isL := e.Tuple.(*ssa.Lookup); isL {
+					atomicOK = pl.lf.HeldThroughout(lk, mu, "gcpBalancer.mu")
+				}
+			}
+		}
+		c.check(atomicOK, "C01.no-move", "bindSubConn: test and insert in one critical section", p.ipos(mu), "gb.mu is write-held from the comma-ok lookup to the insert", "the 'not bound yet' test and the insert are not in one critical section of gb.mu: two BIND completions with the same key can both find it unbound and the second moves it")
 		c.check(imp && okArgs && cs.Seen("bound"), "C01.no-move", "bindSubConn: insert", p.ipos(mu), "affinityMap[key] = sc only when the key is not bound yet (comma-ok lookup of the same key, same critical section)",
 			"a BIND for an already bound key can move it (or the stored pair is not the parameters): "+wit)
 	}
